@@ -16,7 +16,12 @@
    trie, of a never hashed trie, of the database-loaded trie, nodes re-decoded from their encoding).  For trie2
    and a model-key `first` each claim also carries the verdict of RangeProof.tla's transcription of the code as
    it is (mv), which closes the verdicts the contract leaves open.  TQuery steps tamper one node of a range
-   proof (RangeProof.tla RTampers) under a true or singly falsified claim. *)
+   proof (RangeProof.tla RTampers) under a true or singly falsified claim.
+
+   Shared proof sets (SharedOnly = TRUE, Proof_shared.cfg; engines TestSharedProofSets / TestStorageProofSharedSets):
+   Graft steps copy the sub-trie below one prefix to another prefix of the same length (equal sub-tries at different
+   positions, preferably below different edges: Proof.tla Twins); Multi steps are requests of 2..4 distinct keys whose
+   proofs are accumulated in ONE set, one Prove call per key, and carry the verdict of every key against that set. *)
 EXTENDS RangeProof, Json
 
 CONSTANTS MBTLen, LeftEdgeChecked, SweepMax, SweepOnly, BuildLen,
